@@ -49,3 +49,4 @@ def run(ses):
 
 confirm = c01.confirm
 replay = c01.replay
+BASELINE = ['core_builder_reuse']
